@@ -167,7 +167,13 @@ class WebProcessorSession(BaseProcessorSession):
                 url_record.url_info.scheme == 'http':
             return
 
-        request.fields['Referer'] = url_record.parent_url
+        # The user name and password of the referring page are not for other
+        # parties. rfc7231 section 5.5.2.
+        scheme, sep, rest = url_record.parent_url.partition('://')
+        authority, slash, path = rest.partition('/')
+        authority = authority.rpartition('@')[2]
+
+        request.fields['Referer'] = scheme + sep + authority + slash + path
 
     @asyncio.coroutine
     def process(self):
